@@ -34,7 +34,7 @@ REQUIRED_SEEN = {"only_cause": ["failed_scenario", "aborted", "aborted_without_f
                                 "undefined_dry_run"],
                  "verdict": ["failed", "success"], "file_filter": ["include+exclude:file_matching_both"],
                  "nested_sub_step_outcome": ["fail", "error", "pending", "undefined", "pass"], "tag_name_class": ["contains_operator_word"],
-                 "raising_hook_decoration": ["capture"], "raising_cleanup_registered_as": ["own_function", "same_function_other_arguments"]}
+                 "raising_hook_decoration": ["capture"], "location_selection": ["twins_addressed_by_line"], "raising_cleanup_registered_as": ["own_function", "same_function_other_arguments"]}
 NSHARDS = {"quick": 16, "thorough": 16}
 NONTRIVIAL = "see RULE"
 
@@ -247,6 +247,47 @@ FILE_PATTERNS = [r"f0\.feature", r"f1\.feature", r"f2\.feature", r"f[01]\.featur
                  r"f\d\.feature$", r"\.feature"]
 
 
+def pick_locations(rng, case):
+    """file:LINE arguments for two or three plain scenarios of one feature file, two of which carry the SAME title (copy / paste
+    twins at different lines are different scenarios).  Returns the program that is left when only those scenarios are kept."""
+    import copy
+    for f in case["program"]["features"]:
+        plain = []          # (key, node)
+        for i, it in enumerate(f["items"]):
+            if it["kind"] == "scenario":
+                plain.append((("item", i), it))
+            elif it["kind"] == "rule":
+                for j, it2 in enumerate(it["items"]):
+                    if it2["kind"] == "scenario":
+                        plain.append((("item", i, "item", j), it2))
+        if len(plain) < 2:
+            continue
+        chosen = rng.sample(plain, min(len(plain), rng.choice([2, 2, 3])))
+        chosen.sort(key=lambda kv: [x for x in kv[0] if isinstance(x, int)] + [-1])
+        # the twins: same title (the outcome table is keyed by step text, so nothing else changes)
+        chosen[0][1]["name"] = chosen[1][1]["name"] = "Twin title"
+        f.pop("_text", None)
+        keep = set(id(n) for _k, n in chosen)
+        f2 = copy.deepcopy(f)
+
+        def prune(c_new, c_old):
+            items = []
+            for n_new, n_old in zip(c_new["items"], c_old["items"]):
+                if n_old["kind"] == "rule":
+                    prune(n_new, n_old)
+                    if n_new["items"]:
+                        items.append(n_new)
+                elif id(n_old) in keep:
+                    items.append(n_new)
+            c_new["items"] = items
+        prune(f2, f)
+        # run order = file order (document order of the chosen scenarios)
+        order = sorted(chosen, key=lambda kv: [x for x in kv[0] if isinstance(x, int)])
+        return {"file": f["file"], "keys": [k for k, _n in rng.sample(order, len(order))], "names": [n["name"] for _k, n in order],
+                "program": dict(case["program"], features=[f2])}
+    return None
+
+
 def pick_file_filter(rng, case):
     """--include / --exclude (command line or configuration file): exclude is applied after include."""
     files = [f["file"] for f in case["program"]["features"]]
@@ -349,6 +390,12 @@ def run(spec, mon):
         if i % 3 == 2:
             file_filter, extra_args, ini = pick_file_filter(rng, case)
         run_program = case["program"]
+        loc_plan = None
+        if i % 3 == 0:
+            loc_plan = pick_locations(rng, case)
+        if loc_plan is not None:
+            run_program = loc_plan["program"]
+            mon.seen("location_selection", "twins_addressed_by_line")
         if file_filter is not None:
             # "the selected part of the run": feature files taken out by --include / --exclude are not part of it
             run_program = dict(case["program"], features=[f for f in case["program"]["features"] if f["file"] in file_filter["keep"]])
@@ -359,10 +406,15 @@ def run(spec, mon):
             if ini:
                 with open(os.path.join(proj.root, "behave.ini"), "w") as fh:
                     fh.write(ini)
+            if loc_plan is not None:
+                lm = proj.line_maps[loc_plan["file"]]
+                extra_args = ["features/%s:%d" % (loc_plan["file"], lm[k]) for k in loc_plan["keys"]]
             res = proj.run(case["args"] + extra_args + ["-f", "plain"])
         finally:
             proj.close()
         c2 = dict(case, hook_fault=plan.get("hook_fault"), file_filter=file_filter)
+        if loc_plan is not None:
+            c2["locations"] = {"file": loc_plan["file"], "scenarios": loc_plan["names"], "arguments": extra_args}
         mon.case(("sub", RB.strip_case(c2)), nontrivial(case, pred, bool(plan)))
         if res.get("timeout"):
             mon.note("subprocess watchdog fired (inconclusive case)")
